@@ -23,6 +23,13 @@ from multiprocessing.context import assert_spawning
 
 from .reduction import dumps
 
+if os.environ.get("LOKY_VERIF"):
+    from .._verif_hooks import point as _verif_point
+else:
+
+    def _verif_point(label, **ctx):
+        return None
+
 
 __all__ = ["Queue", "SimpleQueue", "Full"]
 
@@ -233,4 +240,14 @@ class SimpleQueue(mp_SimpleQueue):
             self._writer.send_bytes(obj)
         else:
             with self._wlock:
+                if _verif_point("rq.locked") == "partial":
+                    # fault injection: header + half of the payload, then die
+                    import struct
+
+                    os.write(
+                        self._writer.fileno(),
+                        struct.pack("!i", len(obj)) + bytes(obj[: len(obj) // 2]),
+                    )
+                    os.kill(os.getpid(), 9)
                 self._writer.send_bytes(obj)
+                _verif_point("rq.sent")
